@@ -1,13 +1,14 @@
 import GbVerif.Proofs.PpuBits
 import GbVerif.Proofs.PpuSel
 import GbVerif.Proofs.PpuFrame
+import GbVerif.Proofs.PpuCompose
 /-!
 C15 — the frame presented at VBlank equals the reference composition.
 Property theorems only; lemmas are in `Proofs/Ppu*.lean`.
 Model: `Model/Ppu.lean` (mirror of `src/devices/video/*.rs`); spec: `Spec/Frame.lean`.
 -/
 namespace GbVerif.C15
-open GbVerif.Ppu GbVerif.FrameSpec GbVerif.PpuBits GbVerif.PpuObj GbVerif.PpuSel GbVerif.PpuLine GbVerif.PpuFrame
+open GbVerif.Ppu GbVerif.FrameSpec GbVerif.PpuBits GbVerif.PpuObj GbVerif.PpuSel GbVerif.PpuLine GbVerif.PpuFrame GbVerif.PpuCompose
 
 /-! ### stage (i): bit tricks and tile addressing -/
 
@@ -117,41 +118,52 @@ theorem pixel_step_spec (r : Ppu.Regs) (vram oam : Array Nat) (ly : Nat) (base :
       (i + 1 < 160 → Pipe r vram ly (i + 1) s' t') :=
   pixelStep_inv r hr vram oam hv hvb ly hly base hco i t s hi inv pipe
 
-/-- `line_spec`, partial: the forty drawing ticks of mode 3 (each recomputes `tile_x` from the dot
-count and draws 4 pixels) started from a state that satisfies the invariant at pixel 0 end, without
-panic, in a state whose line buffer holds the reference line `ly` (`LineInv … 160`): all 160 pixels
-equal `FrameSpec.pixel`, every other cell of the writing buffer is unchanged, the visible buffer and
-the mode are unchanged.
+/-- the mode 2→3 set-up establishes the invariant at pixel 0: window first tile shifted by `7 − WX`
+pixels when the window is on the line and WX ≤ 7, otherwise the BG tile at SCX/8 shifted by the SCX
+fine scroll. -/
+theorem setup_spec (r : Ppu.Regs) (vram oam : Array Nat) (ly : Nat) (s0 : State) (hr : RegsOk r)
+    (hv : vram.size = 8192) (hvb : IsBytes vram) (hc : s0.cfg = Cfg.ofRegs r) (hl : s0.line = ly)
+    (hw : s0.writing.size = 23040) (hp : s0.objPix = 8) :
+    ∃ s', enterMode3 s0 vram = .ok s' ∧ LineInv r vram oam ly s0 0 s' ∧ Pipe r vram ly 0 s' (tpos r ly 0) :=
+  enterMode3_inv vram oam r hr hv hvb ly s0 hc hl hw hp
 
-Missing for the full `line_spec`/`frame_spec` (covered by the three-way correspondence only):
-(a) that the mode 2→3 set-up `enterMode3` establishes `LineInv … 0` and `Pipe … 0 (tpos r ly 0)`
-    (window first tile for WX ≤ 7, BG first tile with the SCX fine-scroll shift otherwise);
-(b) the composition over the 114 ticks of a line and the 144 lines of a frame (idle ticks are proved:
-    `PpuFrame.runTicks_idle`), ending in the swap below. -/
-theorem line_spec_partial (r : Ppu.Regs) (vram oam : Array Nat) (ly : Nat) (s : State) (t : Nat)
-    (hr : RegsOk r) (hv : vram.size = 8192) (hvb : IsBytes vram) (hly : ly < 144)
-    (hco : CacheOk r vram oam ly s.objCache) (hm : s.mode = .m3) (hd : s.dots = 0)
-    (inv : LineInv r vram oam ly s 0 s) (pipe : Pipe r vram ly 0 s t) :
-    ∃ s', runTicks vram oam 40 s = .ok s' ∧ LineInv r vram oam ly { s with dots := 160 } 160 s' :=
-  drawTicks_inv vram oam r hr hv hvb ly hly 40 0 s s rfl hco hm hd inv (fun _ => ⟨t, pipe⟩)
+/-- `line_spec`: from the entry of mode 2 of line `ly` (`LineStart`: the object cache is the one
+`find_current_line_sprites` produced, cursor 8) the next 113 ticks — 19 idle, set-up, 40 × 4 pixels,
+6 idle, switch to mode 0, 46 idle — do not panic and leave the reference line in the writing buffer
+(`LineEnd.done`: all 160 pixels equal `FrameSpec.pixel`; `LineEnd.other`: no other cell changed;
+the visible buffer is untouched). -/
+theorem line_spec (r : Ppu.Regs) (vram oam : Array Nat) (ly : Nat) (s : State) (hC : Contents r vram oam)
+    (hly : ly < 144) (h : LineStart r vram oam ly s) :
+    ∃ s', runTicks vram oam 113 s = .ok s' ∧ LineEnd r vram oam ly s s' :=
+  line_ticks r vram oam hC ly hly s h
 
-/-- the reference line read off the invariant -/
-theorem line_of_inv (r : Ppu.Regs) (vram oam : Array Nat) (ly : Nat) (base s : State)
-    (inv : LineInv r vram oam ly base 160 s) (x : Nat) (hx : x < 160) :
-    mem s.writing (ly * 160 + x) = FrameSpec.pixel (toSpec r) (mem vram) (mem oam) x ly :=
-  inv.done x hx
+/-- `frame_spec`: for all VRAM, OAM and register contents (bytes; LCDC bits 1–6 free) held constant,
+the frame the harness observes after power-on — 1140 ticks of VBlank, 144 lines, buffer swap at VBlank
+entry — is the reference frame, and nothing panics. -/
+theorem frame_spec (r : Ppu.Regs) (vram oam : Array Nat) (hC : Contents r vram oam) :
+    renderFrame r vram oam = .ok (FrameSpec.frame (toSpec r) (mem vram) (mem oam)) := by
+  obtain ⟨s', h1, _, _, h4⟩ := first_frame r vram oam hC
+  simp only [renderFrame, h1, bind, Except.bind, pure, Except.pure]
+  rw [presents_eq r vram oam s' h4]
 
-/-- `frame_spec`, partial: at the end of line 143's HBlank the buffers are swapped, so the frame
-presented at VBlank is the writing buffer the 144 lines were drawn into.  (Full statement: from
-power-on, after 1140 + 144·114 ticks `visible = FrameSpec.frame`; needs (a) and (b) above.) -/
-theorem frame_swap_partial (vram oam : Array Nat) (s : State) (hm : s.mode = .m0) (hd : s.dots + 4 ≥ 188)
-    (hl : ¬ s.line < 143) :
-    tick s vram oam = .ok { s with dots := s.dots + 4 - 188, line := 144, mode := .m1,
-                                   visible := s.writing, writing := s.visible } := by
-  simp only [tick, hm, hd, hl, if_true, if_false, pure, Except.pure]
+/-- `frame_spec` for every later frame on the same machine (stream `c15.seq`): from any VBlank entry
+whose configuration came from the setters (`Cfg.ofRegs r0`), with the registers set again and VRAM/OAM
+replaced `k ≤ 1139` ticks into the VBlank, the next presented frame is the reference frame of the new
+contents — whatever the previous frame left in the object line cache, its cursor, the window line, the
+tile cache or the two buffers — and the machine is again at a VBlank entry of the same kind. -/
+theorem frame_spec_next (r r0 : Ppu.Regs) (vramOld oamOld vram oam : Array Nat) (s : State) (k : Nat)
+    (hC : Contents r vram oam) (hE : VBlankEntry s) (hc : s.cfg = Cfg.ofRegs r0) (hk : k ≤ 1139) :
+    ∃ s', renderNext s r vramOld oamOld vram oam k = .ok s' ∧
+      s'.visible = FrameSpec.frame (toSpec r) (mem vram) (mem oam) ∧ VBlankEntry s' ∧ s'.cfg = Cfg.ofRegs r := by
+  obtain ⟨s', h1, h2, h3, h4⟩ := next_frame r vramOld oamOld vram oam hC s hE r0 hc k hk
+  exact ⟨s', h1, presents_eq r vram oam s' h4, h2, h3⟩
 
-/-- non-vacuity of `line_spec_partial`: a mode-3 entry state meeting its hypotheses (BG only,
-SCX = 3, SCY = 5, VRAM all 0xFF) -/
+/-- the power-on state is such a VBlank entry -/
+theorem power_on_entry (r : Ppu.Regs) : VBlankEntry (powerOn (Cfg.ofRegs r)) ∧ (powerOn (Cfg.ofRegs r)).cfg = Cfg.ofRegs r :=
+  ⟨powerOn_entry _, rfl⟩
+
+/-- non-vacuity of `pixel_step_spec` (a mode-3 entry state meeting `LineInv`/`Pipe`/`CacheOk`) and of
+`Contents` (hypothesis of `line_spec`, `frame_spec`, `frame_spec_next`): BG only, SCX = 3, SCY = 5, VRAM all 0xFF -/
 example :
     let r : Ppu.Regs := ⟨0x91, 3, 5, 0, 0, 0xe4, 0xe4, 0xe4⟩
     let vram := Array.replicate 8192 255
@@ -160,13 +172,13 @@ example :
                        mode := .m3, dots := 0, line := 0, nextTileX := (tcol r 0 0 + 1) % 32,
                        tileCache := (trow r vram 0 0 <<< (2 * tpos r 0 0)) % 65536,
                        objCache := Array.replicate 176 0, objPix := 8, windowLine := none }
-    RegsOk r ∧ vram.size = 8192 ∧ IsBytes vram ∧ CacheOk r vram oam 0 s.objCache ∧ s.mode = .m3 ∧ s.dots = 0 ∧
+    Contents r vram oam ∧ CacheOk r vram oam 0 s.objCache ∧ s.mode = .m3 ∧ s.dots = 0 ∧
       LineInv r vram oam 0 s 0 s ∧ Pipe r vram 0 0 s (tpos r 0 0) := by
   intro r vram oam s
   have hr : RegsOk r := ⟨by decide, by decide, by decide, by decide, by decide, by decide, by decide, by decide⟩
   have hvb : IsBytes vram := isBytes_replicate _ _ (by decide)
   have hob : IsBytes oam := isBytes_replicate _ _ (by decide)
-  refine ⟨hr, by simp [vram], hvb, ?_, rfl, rfl, ?_, ⟨rfl, rfl, rfl⟩⟩
+  refine ⟨⟨hr, by simp [vram], by simp [oam], hvb, hob⟩, ?_, rfl, rfl, ?_, ⟨rfl, rfl, rfl⟩⟩
   · obtain ⟨cache, h1, h2, h3⟩ := findSprites_spec r hr vram oam (by simp [vram]) (by simp [oam]) hvb hob 0
     have hoff : (Cfg.ofRegs r).objectEnabled = false := by decide +kernel
     have : findCurrentLineSprites (Cfg.ofRegs r) vram oam 0 = .ok (Array.replicate 176 0) := by
@@ -176,5 +188,16 @@ example :
     exact ⟨h2, h3⟩
   · refine ⟨rfl, rfl, by simp [s], rfl, rfl, by decide +kernel, rfl, rfl, rfl, ?_, fun _ _ => rfl, Nat.mod_lt _ (by decide)⟩
     intro j hj; omega
+
+/-- non-vacuity of `line_spec`: a state meeting `LineStart` (objects disabled, so the line cache is clear) -/
+example :
+    let r : Ppu.Regs := ⟨0x91, 3, 5, 0, 0, 0xe4, 0xe4, 0xe4⟩
+    let vram := Array.replicate 8192 255
+    let oam := Array.replicate 160 0
+    LineStart r vram oam 7 { powerOn (Cfg.ofRegs r) with mode := .m2, line := 7, objPix := 8 } := by
+  intro r vram oam
+  have hoff : (Cfg.ofRegs r).objectEnabled = false := by decide +kernel
+  refine ⟨rfl, rfl, rfl, rfl, by simp [powerOn], by simp [powerOn], ?_, rfl⟩
+  simp [findCurrentLineSprites, hoff, pure, Except.pure, powerOn]
 
 end GbVerif.C15
